@@ -490,44 +490,44 @@ func c08EnumLevelTypes(size, shard, nshards int, emit func(c07Case)) {
 		for _, hasOld := range []bool{true, false} {
 			for _, pl := range places {
 				for _, v := range odd {
-				// which of the other maps the proposed content leaves out altogether (a scan over the
-				// maps must not stop at an absent one)
-				for _, drop := range [][]string{nil, {"users"}, {"events"}, {"users", "events"}, {"users", "events", "notifications"}} {
-					idx++
-					if idx%nshards != shard {
-						continue
-					}
-					sender := c07Creator
-					users := map[string]int64{c07Bob: 50}
-					if !vtraits[version].Creators {
-						users[c07Creator] = 100
-					}
-					r := c07Room{Version: version, HasPL: hasOld, JoinRule: "public", Members: map[string]string{c07Creator: "join", c07Bob: "join"}}
-					cur := c07PLContent(users, map[string]int64{"users_default": 0, "events_default": 0, "state_default": 50, "ban": 50, "kick": 50, "redact": 50, "invite": 0},
-						map[string]int64{"m.room.topic": 50}, map[string]int64{"room": 50})
-					r.PL = cur
-					nc := cur
-					if pl.mapKey == "" {
-						nc = nc.with(pl.key, v)
-					} else {
-						m, _ := nc.get(pl.mapKey)
-						if m.K != 'o' {
-							m = jv{K: 'o'}
+					// which of the other maps the proposed content leaves out altogether (a scan over the
+					// maps must not stop at an absent one)
+					for _, drop := range [][]string{nil, {"users"}, {"events"}, {"users", "events"}, {"users", "events", "notifications"}} {
+						idx++
+						if idx%nshards != shard {
+							continue
 						}
-						nc = nc.with(pl.mapKey, m.with(pl.key, v))
-					}
-					for _, d := range drop {
-						if d != pl.mapKey {
-							nc = nc.without(d)
+						sender := c07Creator
+						users := map[string]int64{c07Bob: 50}
+						if !vtraits[version].Creators {
+							users[c07Creator] = 100
 						}
+						r := c07Room{Version: version, HasPL: hasOld, JoinRule: "public", Members: map[string]string{c07Creator: "join", c07Bob: "join"}}
+						cur := c07PLContent(users, map[string]int64{"users_default": 0, "events_default": 0, "state_default": 50, "ban": 50, "kick": 50, "redact": 50, "invite": 0},
+							map[string]int64{"m.room.topic": 50}, map[string]int64{"room": 50})
+						r.PL = cur
+						nc := cur
+						if pl.mapKey == "" {
+							nc = nc.with(pl.key, v)
+						} else {
+							m, _ := nc.get(pl.mapKey)
+							if m.K != 'o' {
+								m = jv{K: 'o'}
+							}
+							nc = nc.with(pl.mapKey, m.with(pl.key, v))
+						}
+						for _, d := range drop {
+							if d != pl.mapKey {
+								nc = nc.without(d)
+							}
+						}
+						b := c07Build(r)
+						e := raEv{Type: "m.room.power_levels", Sender: sender, StateKey: raSK(""), Content: nc, Prev: []string{"$p:a.example"}}
+						if vtraits[version].Format == 2 {
+							e.Prev = []string{"$" + strings.Repeat("P", 43)}
+						}
+						emit(c07Finish(version, b, e))
 					}
-					b := c07Build(r)
-					e := raEv{Type: "m.room.power_levels", Sender: sender, StateKey: raSK(""), Content: nc, Prev: []string{"$p:a.example"}}
-					if vtraits[version].Format == 2 {
-						e.Prev = []string{"$" + strings.Repeat("P", 43)}
-					}
-					emit(c07Finish(version, b, e))
-				}
 				}
 			}
 		}
